@@ -52,12 +52,102 @@ func (s *c13QFSender) RequestBlock(_ context.Context, h hotstuff.Hash) (*hotstuf
 
 var c13TS = time.Date(2025, 2, 2, 0, 0, 0, 0, time.UTC)
 
-func c13Block(parent hotstuff.Hash, view uint64, salt int) *hotstuff.Block {
-	b := hotstuff.NewBlock(parent, hotstuff.QuorumCert{},
+// ---------------------------------------------------------------------------------------------
+// Certificate links are chosen independently of parent links: the quorum certificate a block
+// carries names its parent, an ancestor further up, a block on another branch (possibly with a
+// higher view), genesis, a hash nobody has, or nothing. The store must answer from PARENT links
+// only. (A block cannot certify itself: its hash covers its certificate.)
+var (
+	c13Pool []*hotstuff.Block // blocks of the universe under construction (possible certificate targets)
+	c13Tag  uint64
+)
+
+func c13NewUniverse(tag uint64) {
+	c13Pool = []*hotstuff.Block{hotstuff.GetGenesis()}
+	c13Tag = tag
+}
+
+func c13Mix(x uint64) uint64 {
+	x += 0x9e3779b97f4a7c15
+	x = (x ^ (x >> 30)) * 0xbf58476d1ce4e5b9
+	x = (x ^ (x >> 27)) * 0x94d049bb133111eb
+	return x ^ (x >> 31)
+}
+
+func c13Tagged(s string) uint64 {
+	h := uint64(1469598103934665603)
+	for i := 0; i < len(s); i++ {
+		h = (h ^ uint64(s[i])) * 1099511628211
+	}
+	return h
+}
+
+func c13CertOf(b *hotstuff.Block) hotstuff.QuorumCert {
+	return hotstuff.NewQuorumCert(nil, b.View(), b.Hash())
+}
+
+// c13CertFor picks the certificate of a new block, deterministically from the universe tag.
+func c13CertFor(parent hotstuff.Hash, view uint64, salt int) hotstuff.QuorumCert {
+	if c13Pool == nil {
+		c13NewUniverse(0)
+	}
+	r := c13Mix(c13Tag ^ c13Mix(uint64(salt)+uint64(len(c13Pool))<<20) ^ c13Mix(view) ^ uint64(parent[3])<<8 ^ uint64(parent[7]))
+	find := func(h hotstuff.Hash) *hotstuff.Block {
+		for _, x := range c13Pool {
+			if x.Hash() == h {
+				return x
+			}
+		}
+		return nil
+	}
+	any := c13Pool[int((r>>8)%uint64(len(c13Pool)))]
+	switch r % 16 {
+	case 0, 1, 2: // the parent, as an honest proposer does
+		if p := find(parent); p != nil {
+			return c13CertOf(p)
+		}
+		return hotstuff.NewQuorumCert(nil, hotstuff.View(view-1), parent)
+	case 3: // an ancestor further up
+		if p := find(parent); p != nil {
+			if gp := find(p.Parent()); gp != nil {
+				return c13CertOf(gp)
+			}
+		}
+		return c13CertOf(c13Pool[0])
+	case 4, 5, 6, 7, 8, 9, 10: // any block made so far: another branch, same or higher view, genesis
+		return c13CertOf(any)
+	case 11: // the block with the highest view so far
+		top := c13Pool[0]
+		for _, x := range c13Pool {
+			if x.View() > top.View() {
+				top = x
+			}
+		}
+		return c13CertOf(top)
+	case 12: // a hash nobody has
+		return hotstuff.NewQuorumCert(nil, hotstuff.View(view), c13Missing(200+salt%50))
+	case 13: // right block, wrong view label
+		return hotstuff.NewQuorumCert(nil, any.View()+1, any.Hash())
+	case 14: // no certificate at all
+		return hotstuff.QuorumCert{}
+	default: // genesis
+		return c13CertOf(c13Pool[0])
+	}
+}
+
+func c13BlockQC(parent hotstuff.Hash, view uint64, salt int, qc hotstuff.QuorumCert) *hotstuff.Block {
+	b := hotstuff.NewBlock(parent, qc,
 		&clientpb.Batch{Commands: []*clientpb.Command{{ClientID: uint32(salt), SequenceNumber: uint64(salt)}}},
 		hotstuff.View(view), hotstuff.ID(1+salt%4))
 	b.SetTimestamp(c13TS)
+	c13Pool = append(c13Pool, b)
 	return b
+}
+
+// c13Block makes a block with the given parent hash and view; salt separates equivocating blocks.
+// Its certificate is chosen by c13CertFor, independently of the parent.
+func c13Block(parent hotstuff.Hash, view uint64, salt int) *hotstuff.Block {
+	return c13BlockQC(parent, view, salt, c13CertFor(parent, view, salt))
 }
 
 func c13Missing(i int) hotstuff.Hash {
@@ -175,6 +265,7 @@ func (c *c13Net) chainOf(b *hotstuff.Block, also map[hotstuff.Hash]*hotstuff.Blo
 
 func c13NetProgram(v *verifOut, s *verifStream, logger logging.Logger, seed int64, kind string) (hung bool) {
 	rng := &c13Rng{uint64(seed)*2862933555777941757 + 3037000493}
+	c13NewUniverse(uint64(seed))
 	c := &c13Net{v: v, intern: map[hotstuff.Hash]uint64{}, present: map[hotstuff.Hash]*hotstuff.Block{}}
 	c.snd = &c13QFSender{}
 	c.chain = blockchain.New(eventloop.New(logger, 16), logger, c.snd)
@@ -269,6 +360,13 @@ func c13NetProgram(v *verifOut, s *verifStream, logger logging.Logger, seed int6
 			}
 		case r < 85:
 			b, t := pick(), pick()
+			if rng.Intn(3) == 0 { // the pair (block, block its certificate names)
+				for _, x := range uni {
+					if x.Hash() == b.QuorumCert().BlockHash() {
+						t = x
+					}
+				}
+			}
 			tbl := map[hotstuff.Hash][]*hotstuff.Block{}
 			also := map[hotstuff.Hash]*hotstuff.Block{}
 			for _, x := range uni {
@@ -392,6 +490,7 @@ func TestVerifC13(t *testing.T) {
 	// ---- RequestBlockQF alone
 	qs := v.Stream("qf", "qf_mismatches", 1000)
 	g := hotstuff.GetGenesis()
+	c13NewUniverse(1)
 	pool := []*hotstuff.Block{g}
 	for i := 1; i <= 6; i++ {
 		pool = append(pool, c13Block(pool[(i*7)%len(pool)].Hash(), uint64(i/2+1), i))
